@@ -12,10 +12,16 @@ V (independent oracles in plain Python on the implementation's output):
   centroid_func(cutout_i, mask_i, error_i, ...) + origin_i" for every centroid function.
 Clauses that depend on library numerics (lstsq recovery, Gaussian fitters) are tested
 only (ctx.support) and are labelled partial.
+The inputs of the Coq refutation theorems (sources_unrepaired_*_refuted) are replayed on
+the implementation first (witnesses()).  Recorded-not-repaired findings of this property
+live in fixes/C17-known.json (centroid_quadratic / centroid_1dg / centroid_2dg do not
+return the symmetry centre for some classes of point-symmetric sources).
 """
+import json
 import math
 import warnings
 from fractions import Fraction
+from pathlib import Path
 
 import numpy as np
 
@@ -24,6 +30,18 @@ from .core import coq, Some, Raw
 PID = 'C17'
 FILES = ['lib/Cases.v', 'C17_Model.v', 'C17_Proofs.v', 'C17_Properties.v']
 IMPORTS = ['C17_Model']
+KNOWN_FILE = Path(__file__).resolve().parent.parent / 'fixes' / 'C17-known.json'
+
+
+def load_own_known(ctx):
+    """recorded-not-repaired findings of this property (fixes/C17-known.json): matched on
+    the signature by ctx.violation exactly like /verif/known_findings.json entries (the
+    central file is maintained by the driver; this keeps the check self-contained)."""
+    if KNOWN_FILE.exists():
+        have = {(k.get('property'), k.get('signature')) for k in ctx.known.get('findings', [])}
+        for k in json.loads(KNOWN_FILE.read_text()).get('findings', []):
+            if (k.get('property'), k.get('signature')) not in have:
+                ctx.known.setdefault('findings', []).append(k)
 
 
 # --------------------------------------------------------------------------
@@ -335,6 +353,16 @@ def gen_src(rng, fnames=('com', 'probe', 'probe', 'probe_noerr')):
     return dict(fname=fname, data=data, xs=xs, ys=ys, box=box, foot=foot, mask=mask, kw=kw, kind=kind)
 
 
+def witnesses():
+    """the inputs of C17_Properties.sources_unrepaired_error_refuted / _peak_refuted
+    (C17_Proofs.ones6, foot3, err6, two_pos), replayed on the implementation."""
+    err6 = np.array([[1, 2, 3, 4, 5, 6], [2, 3, 4, 5, 6, 7], [3, 4, 5, 6, 7, 8], [4, 5, 6, 7, 8, 9],
+                     [5, 6, 7, 8, 9, 1], [6, 7, 8, 9, 1, 2]], float)
+    base = dict(fname='probe', data=np.ones((6, 6)), box=3, foot=None, mask=None, kind='witness')
+    return [dict(base, xs=[1.0, 4.0], ys=[1.0, 4.0], kw={'error': err6}),
+            dict(base, xs=[2.0, 4.0], ys=[2.0, 4.0], kw={'xpeak': 3.0, 'ypeak': 3.0})]
+
+
 def src_impl(c, xs=None, ys=None):
     from photutils.centroids import centroid_sources
     f = funcs()[c['fname']]
@@ -570,6 +598,12 @@ def quad_to_coq(c, out, calls):
                            lsq, obs))
 
 
+def det_marginal(coef):
+    """C17_Model.det_marginal on the recorded lstsq answer (exact rationals)."""
+    c10, c01, c11, c20, c02 = (Fraction(float(v)) for v in coef[1:6])
+    return abs(4 * c20 * c02 - c11 * c11) <= Fraction(1, 2 ** 50) * (4 * abs(c20 * c02) + c11 * c11)
+
+
 def quad_rows_ok(calls):
     """the design matrix handed to lstsq has the columns 1, x, y, xy, xx, yy."""
     for A, b, _ in calls:
@@ -648,6 +682,7 @@ def quad_oracle(c, out):
 # --------------------------------------------------------------------------
 def run(ctx):
     ctx.build(FILES)
+    load_own_known(ctx)
     ctx.cov['rule'] = (
         'three case families, all evaluated by the real API and by the Coq model (vm_compute): '
         'centroid_com on 1x1..9x9 integer/quarter-valued images (random, sparse, zero total, blobs, point-symmetric '
@@ -657,8 +692,11 @@ def run(ctx):
         'source completely), error maps, xpeak/ypeak (both, one, none) for centroid_com and two probe functions; '
         'centroid_quadratic on 3x3..13x13 images (exact quadratics with dyadic vertex anywhere incl. the border, blobs, '
         'plateaus with tied maxima, NaN/inf, masks, xpeak/ypeak incl. .5 ties and out of range, fit/search box sizes '
-        'incl. even, 0, too small, larger than the image). non-trivial = implementation returned at least one finite '
-        'coordinate; distinct = distinct full input')
+        'incl. even, 0, too small, larger than the image). Plus (oracle tests only): centroid_sources with '
+        'centroid_quadratic/1dg/2dg on 12x12..22x22 scenes of 1..4 Gaussian sources; flips/transposition/rescaling/'
+        'masked values of the three fitting functions; point-symmetric non-Gaussian sources about integer and '
+        'half-integer centres at the window centre, off centre and next to the border for all four functions. '
+        'non-trivial = implementation returned at least one finite coordinate; distinct = distinct full input')
     ctx.assumptions += [
         'numpy.linalg.lstsq is an input of the model: its call is observed (rows, returned coefficients) and the '
         'model continues from the returned coefficients',
@@ -669,13 +707,17 @@ def run(ctx):
         'astropy.nddata.overlap_slices is modelled (ceil rule) as part of centroid_sources / centroid_quadratic',
     ]
     ctx.cov['partial_clauses'] = [
-        'centroid_quadratic returns the vertex of an exactly quadratic peak: proved from the hypothesis that lstsq '
-        'returns the coefficients of exactly quadratic data (quadratic_vertex_partial); the hypothesis is tested '
-        '(support: quadratic_vertex_lstsq)',
+        'centroid_quadratic returns the vertex of an exactly quadratic peak (quadratic_exact_peak_partial): proved '
+        'from two premises that are not derived: numpy.linalg.lstsq returns a minimiser of the sum of squared '
+        'residuals, and the fitted pixels contain six points of a 3x3 block; that a least-squares solution of exact '
+        'data is the quadric itself is proved (least_squares_recovers_exact_quadric). The end-to-end clause is '
+        'tested (support: quadratic_vertex_lstsq, tolerance 1e-7)',
         'centroid_1dg / centroid_2dg (astropy TRFLSQFitter): symmetry centre, flips, transposition, rescaling, '
         'masked values are only tested (support: gaussian_*); their per-source behaviour inside centroid_sources '
         'is checked exactly against direct calls',
-        'symmetry / flip / transposition / rescaling of centroid_quadratic depend on lstsq: tested only',
+        'symmetry centre / flip / transposition / rescaling of centroid_quadratic depend on lstsq: tested only '
+        '(support: quadratic_*), on data with a unique maximal pixel; masked values: proved for any lstsq '
+        '(quadratic_ignores_masked_values)',
     ]
     quick = ctx.tier == 'quick'
     rng = ctx.rng
@@ -704,8 +746,9 @@ def run(ctx):
 
     # ---------------- centroid_sources ----------------
     n_src = 300 if quick else 2500
-    for i in range(n_src):
-        c = gen_src(rng)
+    wit = witnesses()
+    for i in range(n_src + len(wit)):
+        c = wit[i] if i < len(wit) else gen_src(rng)
         impl = src_impl(c)
         desc = dict(src_describe(c), fn='centroid_sources')
         src_checks(ctx, c, impl, desc, shuffle=True)
@@ -716,7 +759,7 @@ def run(ctx):
         ctx.stat('src_result', 'raise' if impl == 'raise' else
                  ('some_nan' if any(math.isnan(p[0]) for p in impl) else 'values'))
         ctx.count_case(desc, impl != 'raise' and any(not math.isnan(p[0]) for p in impl))
-        if i < 1:
+        if i == len(wit):
             ctx.sample({'case': desc, 'impl': None if impl == 'raise' else [list(p) for p in impl]})
         if impl != 'raise' and any(p == 'mixed' or fres(*p) == 'mixed' for p in impl):
             ctx.violation('centroid_sources:half-nan', 'one coordinate NaN and the other finite', desc)
@@ -760,6 +803,8 @@ def run(ctx):
         if out != 'raise' and fres(*out) == 'mixed':
             ctx.violation('centroid_quadratic:half-nan', 'one coordinate NaN and the other finite', desc)
             continue
+        if calls:
+            ctx.stat('quad_decision_margin', 'inside_rounding_bound' if det_marginal(calls[0][2]) else 'clear')
         terms.append(quad_to_coq(c, out, calls))
         meta.append(('quad', c, out, desc))
 
@@ -779,6 +824,12 @@ def run(ctx):
         elif fam == 'src':
             holds = list_equal(impl, src_oracle(c))
             sig = 'centroid_sources:per-source'
+            try:   # does the implementation behave like the loop before the repair?
+                detail['equals_model_of_unrepaired_loop'] = ctx.coq_eval_term(
+                    IMPORTS, 'match (' + terms[i] + ') with CSrc c => opt_eqb (list_eqb fres_eqb) '
+                    "(src_model true c) (let '(_, _, _, _, _, _, _, _, e) := c in e) | _ => false end")
+            except Exception as e:   # pragma: no cover
+                detail['equals_model_of_unrepaired_loop'] = 'n/a: ' + str(e)[:200]
         else:
             holds = quad_oracle(c, impl)[0]
             sig = 'centroid_quadratic:peak-or-validation'
@@ -787,13 +838,8 @@ def run(ctx):
                           'implementation breaks the property', detail)
         else:
             ctx.violation('correspondence:C17_Model.check_case:' + fam, 'model and implementation disagree '
-                          '(fit box / rounding / lstsq rows) while the Python oracle is satisfied', detail,
-                          found_input=(fam == 'quad'))
-    # marginal quadratic decisions (accepted either way by post_ok): count them
-    nm = 0
-    for fam, c, impl, desc in meta:
-        if fam == 'quad':
-            pass
+                          '(cutout / fit box / rounding / lstsq rows) while the Python oracle of the property is '
+                          'satisfied on this input', detail, found_input=False)
     ctx.stat('coq', 'cases', len(terms))
 
     # ---------------- per-source clause with the real fitting functions ----------------
@@ -806,11 +852,12 @@ def run(ctx):
         ctx.stat('src_func', fname)
         ctx.stat('src_real_kw', '+'.join(sorted(c['kw'])) or 'none')
         ctx.count_case(desc, impl != 'raise' and any(not math.isnan(p[0]) for p in impl))
-        src_checks(ctx, c, impl, desc, shuffle=(i % 4 == 0))
+        src_checks(ctx, c, impl, desc, shuffle=(i % 4 == 0), suffix=':' + fname)
 
     # ---------------- Gaussian fits: tested only (partial) ----------------
     gaussian_support(ctx, 12 if quick else 120)
     quadratic_metamorphic(ctx, 40 if quick else 400)
+    symmetric_support(ctx, 30 if quick else 300)
 
 
 def com_metamorphic(ctx, c, impl, desc):
@@ -851,11 +898,11 @@ def com_metamorphic(ctx, c, impl, desc):
         rel('symmetry-centre', impl, (c['sym'][0] / 2, c['sym'][1] / 2))
 
 
-def src_checks(ctx, c, impl, desc, shuffle=False):
+def src_checks(ctx, c, impl, desc, shuffle=False, suffix=''):
     """the per-source clause, directly on the implementation's output."""
     want = src_oracle(c)
     if not list_equal(impl, want):
-        ctx.violation('centroid_sources:per-source', 'centroid_sources(all positions)[i] differs from centroid_func '
+        ctx.violation('centroid_sources:per-source' + suffix, 'centroid_sources(all positions)[i] differs from centroid_func '
                       'on the cutout of position i (same footprint, mask, error, extra arguments) + cutout origin',
                       dict(desc, impl=str(impl), expected=str(want)))
         return
@@ -913,6 +960,17 @@ def gen_src_real(rng, fname):
     return dict(fname=fname, data=data, xs=xs, ys=ys, box=box, foot=foot, mask=mask, kw=kw, kind='gauss')
 
 
+def safe(f, *args, **kwargs):
+    """call a centroid function; an exception counts as (nan, nan)."""
+    try:
+        with warnings.catch_warnings():
+            warnings.simplefilter('ignore')
+            r = f(*args, **kwargs)
+        return (float(r[0]), float(r[1]))
+    except (ValueError, TypeError):
+        return (math.nan, math.nan)
+
+
 def gaussian_support(ctx, n):
     """centroid_1dg / centroid_2dg: symmetry centre, flips, transposition, rescaling,
     masked values.  Library fitter -> tested only."""
@@ -933,18 +991,16 @@ def gaussian_support(ctx, n):
         ox, oy = rng.uniform(2.5, nx - 3.5), rng.uniform(2.5, ny - 3.5)
         data = 100 * np.exp(-((x - ox) ** 2 / (2 * s * s) + (y - oy) ** 2 / (2 * 1.3 * 1.3)))
         for name, f in (('1dg', centroid_1dg), ('2dg', centroid_2dg)):
-            with warnings.catch_warnings():
-                warnings.simplefilter('ignore')
-                rsym = f(sym)
-                r = f(data)
-                rf = f(data[:, ::-1])
-                rt = f(data.T)
-                rs = f(data * 4.0)
-                m = np.zeros(data.shape, bool)
-                m[rng.randrange(ny), rng.randrange(nx)] = True
-                d2 = data.copy()
-                d2[m] = 1e5
-                r1, r2 = f(data, mask=m), f(d2, mask=m)
+            rsym = safe(f, sym)
+            r = safe(f, data)
+            rf = safe(f, data[:, ::-1])
+            rt = safe(f, data.T)
+            rs = safe(f, data * 4.0)
+            m = np.zeros(data.shape, bool)
+            m[rng.randrange(ny), rng.randrange(nx)] = True
+            d2 = data.copy()
+            d2[m] = 1e5
+            r1, r2 = safe(f, data, mask=m), safe(f, d2, mask=m)
             desc = {'fn': 'centroid_' + name, 'shape': [ny, nx], 'gaussian_centre': [ox, oy], 'sigma': s,
                     'symmetric_data': sym.tolist()}
             ctx.count_case(desc)
@@ -975,19 +1031,17 @@ def quadratic_metamorphic(ctx, n):
         yx = np.unravel_index(np.argmax(data), data.shape)
         data[yx] += 3
         fb = rng.choice([3, 5])
-        with warnings.catch_warnings():
-            warnings.simplefilter('ignore')
-            r = centroid_quadratic(data, fit_boxsize=fb)
-            rf = centroid_quadratic(data[:, ::-1], fit_boxsize=fb)
-            rt = centroid_quadratic(data.T, fit_boxsize=fb)
-            rs = centroid_quadratic(data * 4, fit_boxsize=fb)
-            m = np.zeros(data.shape, bool)
-            far = [(yy, xx) for yy in range(ny) for xx in range(nx) if (yy, xx) != tuple(yx)]
-            m[far[rng.randrange(len(far))]] = True
-            d2 = data.copy()
-            d2[m] = -1e4
-            r1 = centroid_quadratic(data, fit_boxsize=fb, mask=m)
-            r2 = centroid_quadratic(d2, fit_boxsize=fb, mask=m)
+        r = safe(centroid_quadratic, data, fit_boxsize=fb)
+        rf = safe(centroid_quadratic, data[:, ::-1], fit_boxsize=fb)
+        rt = safe(centroid_quadratic, data.T, fit_boxsize=fb)
+        rs = safe(centroid_quadratic, data * 4, fit_boxsize=fb)
+        m = np.zeros(data.shape, bool)
+        far = [(yy, xx) for yy in range(ny) for xx in range(nx) if (yy, xx) != tuple(yx)]
+        m[far[rng.randrange(len(far))]] = True
+        d2 = data.copy()
+        d2[m] = -1e4
+        r1 = safe(centroid_quadratic, data, fit_boxsize=fb, mask=m)
+        r2 = safe(centroid_quadratic, d2, fit_boxsize=fb, mask=m)
         desc = {'fn': 'centroid_quadratic', 'data': jimg(data), 'fit_boxsize': fb}
         ctx.count_case(desc, not math.isnan(r[0]))
 
@@ -1002,6 +1056,100 @@ def quadratic_metamorphic(ctx, n):
             if not ok:
                 ctx.violation(f'centroid_quadratic:{cname}', f'centroid_quadratic {cname}',
                               dict(desc, relation=cname, base=[float(v) for v in r]))
+
+
+def sym_source(rng, ny, nx, cx2, cy2, radius=2.0):
+    """non-Gaussian source that is point symmetric about (cx2/2, cy2/2), zero outside
+    `radius`, with its maximal pixels next to the centre (dyadic values)."""
+    d = np.zeros((ny, nx))
+    for y in range(ny):
+        for x in range(nx):
+            x2, y2 = cx2 - x, cy2 - y
+            if 0 <= x2 < nx and 0 <= y2 < ny and (y, x) <= (y2, x2):
+                rr = math.hypot(x - cx2 / 2, y - cy2 / 2)
+                if rr <= radius:
+                    v = round(100 * math.exp(-rr * rr / 3)) + rng.randint(0, 5) / 4
+                    d[y, x] = v
+                    d[y2, x2] = v
+    return d
+
+
+QUAD_SYM_WITNESS = {'fn': 'centroid_quadratic_symmetric', 'fit_boxsize': 5, 'centre': [2.5, 2.5],
+                    'data': [[round(100 * math.exp(-((x - 2.5) ** 2 + (y - 2.5) ** 2) / 2), 3) for x in range(6)]
+                             for y in range(6)]}
+
+
+def quad_sym_eval(r):
+    from photutils.centroids import centroid_quadratic
+    with warnings.catch_warnings():
+        warnings.simplefilter('ignore')
+        out = centroid_quadratic(np.array(r['data'], float), fit_boxsize=r['fit_boxsize'])
+    cx, cy = r['centre']
+    return (float(out[0]), float(out[1])), (abs(out[0] - cx) < 1e-7 and abs(out[1] - cy) < 1e-7)
+
+
+def symmetric_support(ctx, n):
+    """every centroid function on point-symmetric, non-Gaussian sources about integer and
+    half-integer centres anywhere in the cutout (support lies inside the cutout).
+    centroid_com: exact (also proved).  centroid_1dg/2dg: library fitter, tolerance 2e-3.
+    centroid_quadratic: exact (1e-7) when the maximal pixel is unique and the fit box is
+    not pushed back by the image border; otherwise the deviation is a recorded finding
+    (fixes/C17-known.json)."""
+    from photutils.centroids import centroid_com, centroid_1dg, centroid_2dg
+    rng = ctx.rng
+    recs = [dict(QUAD_SYM_WITNESS)]
+    for i in range(n):
+        ny, nx = rng.randint(7, 12), rng.randint(7, 12)
+        r0 = rng.random()
+        near_edge = r0 < 0.3
+        lo = 2 if near_edge else 4
+        cx2, cy2 = rng.randint(lo, 2 * (nx - 1) - lo), rng.randint(lo, 2 * (ny - 1) - lo)
+        if r0 > 0.7:      # the window itself is point symmetric (source at the window centre)
+            cx2, cy2 = nx - 1, ny - 1
+        centred = (cx2, cy2) == (nx - 1, ny - 1)
+        data = sym_source(rng, ny, nx, cx2, cy2, 1.5 if near_edge else 2.0)
+        cx, cy = cx2 / 2, cy2 / 2
+        desc = {'fn': 'symmetric_source', 'centre': [cx, cy], 'data': jimg(data)}
+        ctx.count_case(desc)
+        ctx.stat('symmetric_centre', ('half' if cx2 % 2 else 'int') + '/' + ('half' if cy2 % 2 else 'int')
+                 + ('/window-centre' if centred else ('/near-edge' if near_edge else '/off-centre')))
+
+        def call(f):
+            try:
+                with warnings.catch_warnings():
+                    warnings.simplefilter('ignore')
+                    return f(data)
+            except (ValueError, TypeError):
+                return (math.nan, math.nan)
+        res = {'com': (call(centroid_com), 1e-9), '1dg': (call(centroid_1dg), 2e-3),
+               '2dg': (call(centroid_2dg), 2e-3)}
+        for name, (r, tol) in res.items():
+            ctx.support(f'symmetric_centre_{name}' + ('' if centred or name == 'com' else '_off-centre'))
+            if not (abs(r[0] - cx) < tol and abs(r[1] - cy) < tol):
+                # Gaussian fits of a non-Gaussian source in a window that is not symmetric about the
+                # source: recorded finding; everything else is a plain violation
+                sig = f'centroid_{name}:symmetry-centre' + ('' if centred or name == 'com' else ':off-centre-source')
+                ctx.violation(sig, f'centroid_{name} on a point-symmetric source: '
+                              f'{tuple(float(v) for v in r)}, centre {(cx, cy)} (tolerance {tol})',
+                              dict(desc, relation='symmetry-centre', func=name))
+        for fb in (3, 5):
+            recs.append({'fn': 'centroid_quadratic_symmetric', 'fit_boxsize': fb, 'centre': [cx, cy],
+                         'data': data.tolist()})
+    for r in recs:
+        out, ok = quad_sym_eval(r)
+        cx, cy = r['centre']
+        ny, nx = np.array(r['data']).shape
+        h = r['fit_boxsize'] // 2
+        half = cx != int(cx) or cy != int(cy)
+        clipped = not (h <= cx <= nx - 1 - h and h <= cy <= ny - 1 - h)
+        cls = 'half-integer-centre' if half else ('fit-box-shifted' if clipped else 'unique-peak')
+        ctx.stat('quadratic_symmetric', cls + ('' if ok else ':deviates'))
+        if cls == 'unique-peak':
+            ctx.support('quadratic_symmetry-centre')
+        if not ok:
+            ctx.violation('centroid_quadratic:symmetry-centre:' + cls,
+                          f'centroid_quadratic on a point-symmetric source returns {out}, symmetry centre {(cx, cy)}',
+                          r)
 
 
 # --------------------------------------------------------------------------
@@ -1039,6 +1187,18 @@ def replay(obj):
             com_metamorphic(cc, dict(data=data, mask=mask, sym=None), impl, {})
             print('metamorphic failures:', cc.bad)
             ok = not cc.bad
+    elif fn == 'symmetric_source':
+        f = funcs()[r['func']]
+        data = unj(r['data'])
+        with warnings.catch_warnings():
+            warnings.simplefilter('ignore')
+            out = f(data)
+        tol = 1e-9 if r['func'] == 'com' else 2e-3
+        print(f"centroid_{r['func']}:", tuple(float(v) for v in out), ' symmetry centre:', tuple(r['centre']))
+        ok = abs(out[0] - r['centre'][0]) < tol and abs(out[1] - r['centre'][1]) < tol
+    elif fn == 'centroid_quadratic_symmetric':
+        out, ok = quad_sym_eval(r)
+        print('centroid_quadratic:', out, ' symmetry centre:', tuple(r['centre']))
     elif fn == 'centroid_quadratic' and 'kwargs' in r:
         c = dict(data=unj(r['data']), mask=None if r['mask'] is None else np.array(r['mask'], bool),
                  kw={k: (tuple(v) if isinstance(v, list) else v) for k, v in r['kwargs'].items()},
